@@ -62,6 +62,18 @@ func newAEAD(key []byte, nonceSize, tagSize int) (cipher.AEAD, error) {
 	return nil, fmt.Errorf("combination (nonce %d, tag %d) is not reachable through crypto/cipher", nonceSize, tagSize)
 }
 
+func newAEADFromBlock(blk cipher.Block, nonceSize, tagSize int) (cipher.AEAD, error) {
+	switch {
+	case nonceSize == 12 && tagSize == 16:
+		return cipher.NewGCM(blk)
+	case tagSize == 16:
+		return cipher.NewGCMWithNonceSize(blk, nonceSize)
+	case nonceSize == 12:
+		return cipher.NewGCMWithTagSize(blk, tagSize)
+	}
+	return nil, fmt.Errorf("combination (nonce %d, tag %d) is not reachable through crypto/cipher", nonceSize, tagSize)
+}
+
 type gcmCase struct {
 	key, nonce, aad, pt []byte
 	tag                 int
